@@ -120,6 +120,10 @@ def unichan_fmt(o):
         return "Dv(%d, %d)" % (o["s"], o.get("max", 9))
     if n == "cancel_all":
         return "X"
+    if n == "close":
+        return "Cl"
+    if n == "drop_stream":
+        return "Dr(%d)" % o["s"]
     raise ToolError("unichan_fmt: no TLA+ form for op %s" % n)
 
 
